@@ -91,6 +91,9 @@ func (a *Agg) add(prop, label string, rr *RunResult) {
 			a.Tags[e.Tag]++
 		}
 	}
+	if w := rr.Wall.Seconds(); w > a.Wall["slowest_child_s"] {
+		a.Wall["slowest_child_s"] = w
+	}
 	a.RaceReports += len(rr.Races)
 	for _, r := range rr.Races {
 		if !r.InFrugal {
